@@ -813,6 +813,8 @@ class StmtGen:
                 if r.random() < 0.5: s["offset"], s["offset_rows"] = r.randrange(1, 50), True
                 s["fetch"] = dict(type=r.choice(["FIRST", "NEXT"]), value=r.randrange(1, 50), percent=r.random() < 0.2,
                                   rows=r.choice(["ROWS", "ROW", ""]), ties=r.random() < 0.3)
+        if not scalar and r.random() < 0.05:
+            s["from_"], s["joins"] = [], []          # SELECT without FROM keeps its other clauses (SELECT 1 WHERE ... ORDER BY 1)
         if depth == 0 and not simple and r.random() < 0.1:
             s["for_"] = dict(lock=r.choice(["UPDATE", "SHARE", "NO KEY UPDATE", "KEY SHARE"]),
                              tables=[r.choice(TABS) for _ in range(r.randrange(0, 3))], wait=r.choice(["", "NOWAIT", "SKIP LOCKED"]))
